@@ -294,7 +294,7 @@ def run(tier):
     lexe = build.driver("dbg", "lex_drv", libs=("riddle", "smt", "json"))
     probes = {v: build.driver(v, "probe", libs=("solver", "core", "riddle", "smt", "json")) for v in ("dbg", "rel")}
     nlex = 4000 if tier == "quick" else 60000
-    npin = 640 if tier == "quick" else 8000
+    npin = 1600 if tier == "quick" else 8000
     common.pmap(lex_work, [(lexe, s, 250) for s in range(0, nlex, 250)], res)
     common.pmap(prog_work, [(probes, s, 20) for s in range(0, npin, 20)], res)
     res.merge(syntax_work(probes["dbg"], 0))
